@@ -381,6 +381,8 @@ func init() {
 		for _, m := range []string{"plain", "aes-256-gcm"} {
 			jobs = append(jobs, vx.Job{Scenario: "dgram.sizes", Params: vx.P("method", m, "step", fmt.Sprint(b(37, 1)), "via", "readfrom"), Weight: 3})
 		}
+		// concurrent senders on the WebSocket transport (C05's driver: every message arrives whole, exactly once)
+		jobs = append(jobs, vx.Job{Scenario: "ws.writers", Params: vx.P("writers", "3", "per", "1"), Bound: 2, Weight: 5})
 		// bursts: several datagrams pending on the server's stream at once, even and odd session ids, the admin UID as a proxy user
 		jobs = append(jobs, vx.Job{Scenario: "udp.route", Params: vx.P("burst", "1", "sidlow", "1"), Weight: 4},
 			vx.Job{Scenario: "udp.route", Params: vx.P("burst", "1", "sidlow", "2"), Weight: 4},
